@@ -2,6 +2,8 @@ import JunoModel.Common.Proto
 import JunoModel.C18.Model
 import JunoModel.C18.ModelBlockTx
 import JunoModel.C18.ModelSDL
+import JunoModel.C18.ModelHS
+import JunoModel.C18.ModelPipe
 /-! Line-protocol driver for the C18 models (`lake build c18drv`). See notes/C18.md for the
 request grammar. -/
 open Juno.Proto Juno.C18
@@ -14,6 +16,7 @@ structure DrvState where
   btN : Nat := 0
   sdl : SDL.Db := ⟨none, fun _ => ⟨false, 0, 0⟩⟩
   sdlN : Nat := 0
+  hs : HS.Db := ⟨0, fun _ => ⟨none, none, none, none⟩⟩
 
 def svHex (s : SV) : String := natToHex s.toNat
 def hexSV? (s : String) : Option SV := (hexToNat? s).bind fun n => if n < 2 ^ 64 then some (BitVec.ofNat 64 n) else none
@@ -70,7 +73,8 @@ def showCalls (log : List Event) : String :=
   if l.isEmpty then "-" else ",".intercalate l
 
 def showResult : Result → String
-  | .ok => "ok" | .cancelled => "err" | .errBefore => "err" | .errMigrate => "err" | .crashed => "crashed"
+  | .ok => "ok" | .cancelled => "err" | .errBefore => "err" | .errMigrate => "err" | .errWrite => "err"
+  | .crashed => "crashed"
 
 def parseIst (tok : String) : Option (Nat × Bytes) :=
   match tok.splitOn ":" with
@@ -113,12 +117,12 @@ def parseStep (tok : String) : Option BlockTx.Step :=
   if tok == "H" then some .cancelHead
   else if tok == "F" then some .crashFinal
   else if tok.startsWith "P" then (parseEmit (String.ofList (tok.toList.drop 1))).map .pass
-  else if tok.startsWith "C" then
+  else if tok.startsWith "C" || tok.startsWith "W" then
     match (String.ofList (tok.toList.drop 1)).splitOn ":" with
     | [e, bits] => do
       let e ← parseEmit e
       let bs ← if bits == "-" then some [] else bits.toList.mapM fun c => if c == '1' then some true else if c == '0' then some false else none
-      pure (.crash e bs)
+      pure (if tok.startsWith "C" then .crash e bs else .writeFail e bs)
     | _ => none
   else none
 
@@ -140,6 +144,13 @@ def showSBlk (k : SDL.Blk) : String := s!"{if k.present then 1 else 0}:{k.diffLe
 
 def parseSStep (tok : String) : Option SDL.Step :=
   if tok.startsWith "P" then (parseEmit (String.ofList (tok.toList.drop 1))).map .pass
+  else if tok.startsWith "W" then
+    match (String.ofList (tok.toList.drop 1)).splitOn ":" with
+    | [e, bits] => do
+      let e ← parseEmit e
+      let bs ← if bits == "-" then some [] else bits.toList.mapM fun c => if c == '1' then some true else if c == '0' then some false else none
+      pure (.writeFail e bs)
+    | _ => none
   else if tok.startsWith "C" then
     match (String.ofList (tok.toList.drop 1)).splitOn ":" with
     | [e, bits] => do
@@ -151,6 +162,48 @@ def parseSStep (tok : String) : Option SDL.Step :=
 
 def showSRet : SDL.Ret → String
   | .done => "done" | .rerun n => s!"rerun:{n}" | .failed => "failed" | .crashed => "crashed"
+
+/-! ### head-state encoding: `<cls|x>:<nonce|x>:<height|x>:<x | nonce,cls,height>` per address -/
+
+def optNat? (t : String) : Option (Option Nat) := if t == "x" then some none else t.toNat?.map some
+def showOptNat (o : Option Nat) : String := match o with | none => "x" | some n => toString n
+
+def parseAcct (tok : String) : Option HS.Acct :=
+  match tok.splitOn ":" with
+  | [c, n, h, ct] => do
+    let c ← optNat? c
+    let n ← optNat? n
+    let h ← optNat? h
+    let ct ← if ct == "x" then some none else
+      match ct.splitOn "," with
+      | [a, b, d] => do let a ← a.toNat?; let b ← b.toNat?; let d ← d.toNat?; pure (some (a, b, d))
+      | _ => none
+    pure ⟨c, n, h, ct⟩
+  | _ => none
+
+def showAcct (k : HS.Acct) : String :=
+  let ct := match k.contract with | none => "x" | some (a, b, d) => s!"{a},{b},{d}"
+  s!"{showOptNat k.cls}:{showOptNat k.nonce}:{showOptNat k.height}:{ct}"
+
+def parseBits (bits : String) : Option (List Bool) :=
+  if bits == "-" then some [] else bits.toList.mapM fun c => if c == '1' then some true else if c == '0' then some false else none
+
+def parseHStep (tok : String) : Option HS.Step :=
+  let rest := String.ofList (tok.toList.drop 1)
+  if tok.startsWith "P" then (parseEmit rest).map .pass
+  else if tok.startsWith "X" then rest.toNat?.map .crashWipe
+  else if tok.startsWith "Y" then rest.toNat?.map .failWipe
+  else if tok.startsWith "C" || tok.startsWith "W" then
+    match rest.splitOn ":" with
+    | [e, bits] => do
+      let e ← parseEmit e
+      let bs ← parseBits bits
+      pure (if tok.startsWith "C" then .crash e bs else .writeFail e bs)
+    | _ => none
+  else none
+
+def showHRet : HS.Ret → String
+  | .done => "done" | .rerun => "rerun" | .failed => "failed" | .crashed => "crashed"
 
 def step (s : DrvState) (line : String) : DrvState × String :=
   match words line with
@@ -215,17 +268,22 @@ def step (s : DrvState) (line : String) : DrvState × String :=
       if !r.ok then (s, "bad-op") else
       (s, match newRunner s.cfg r s.disk with | .ok => "ok" | .optOut => "optout" | .downgrade => "downgrade")
     | none => (s, "bad-op")
-  | "run" :: r :: ca :: cr :: behs =>
-    match parseReg r, ca.toNat?, cr.toNat?, behs.mapM parseBeh with
-    | some r, some ca, some cr, some bl =>
+  | "run" :: r :: ca :: cr :: behs0 =>
+    let (fails, behs) := behs0.partition (fun t => t.startsWith "fail=")
+    let fa : Option Nat := match fails with
+      | [] => some 0
+      | [t] => (String.ofList (t.toList.drop 5)).toNat?
+      | _ => none
+    match parseReg r, ca.toNat?, cr.toNat?, behs.mapM parseBeh, fa with
+    | some r, some ca, some cr, some bl, some fa =>
       if !r.ok then (s, "bad-op") else
       match newRunner s.cfg r s.disk with
       | .optOut => (s, "refused:optout " ++ showDisk s.disk)
       | .downgrade => (s, "refused:downgrade " ++ showDisk s.disk)
       | .ok =>
-        let (rs, res) := run s.cfg r ⟨behOf bl, ca, cr⟩ s.disk
+        let (rs, res) := run s.cfg r ⟨behOf bl, ca, cr, fa⟩ s.disk
         ({ s with disk := rs.disk }, s!"{showResult res} {showDisk rs.disk} calls={showCalls rs.log}")
-    | _, _, _, _ => (s, "bad-op")
+    | _, _, _, _, _ => (s, "bad-op")
   | "bt.set" :: h :: blks =>
     let h? : Option (Option Nat) := if h == "none" then some none else h.toNat?.map some
     match h?, blks.mapM parseBlk with
@@ -258,6 +316,27 @@ def step (s : DrvState) (line : String) : DrvState × String :=
       let l := (List.range s.sdlN).map fun b => showSBlk (db'.blk b)
       ({ s with sdl := db' }, s!"{showSRet r} {if l.isEmpty then "-" else " ".intercalate l}")
     | _, _ => (s, "bad-op")
+  | "hs.set" :: accts =>
+    match accts.mapM parseAcct with
+    | some l =>
+      let arr := l.toArray
+      ({ s with hs := ⟨l.length, fun a => arr.getD a ⟨none, none, none, none⟩⟩ }, "ok")
+    | none => (s, "bad-op")
+  | ["hs.migrate", st] =>
+    match parseHStep st with
+    | some st =>
+      let (db, r) := HS.migrate s.hs st
+      let arr := ((List.range db.n).map db.acct).toArray
+      let db' : HS.Db := ⟨db.n, fun a => arr.getD a ⟨none, none, none, none⟩⟩
+      let l := (List.range db'.n).map fun a => showAcct (db'.acct a)
+      ({ s with hs := db' }, s!"{showHRet r} {if l.isEmpty then "-" else " ".intercalate l}")
+    | none => (s, "bad-op")
+  | ["pipe.check", conc, n, sent, isDone, workers, dones] =>
+    let ws : Option (List (List Nat)) := (workers.splitOn ";").mapM parseNats
+    match conc.toNat?, n.toNat?, sent.toNat?, bool? isDone, ws, parseNats dones with
+    | some conc, some n, some sent, some d, some ws, some dc =>
+      (s, toString (Pipe.valid conc ⟨n, sent, d, ws, dc⟩))
+    | _, _, _, _, _, _ => (s, "bad-op")
   | ["bt.first"] =>
     match s.bt.height with
     | none => (s, "noheight")
